@@ -79,7 +79,7 @@ claim("C13",
       "Coq proof (permutation invariance through a verified key sort, sub-tree locality) + metamorphic byte-comparison runs of the implementation + lockstep correspondence",
       "DESIGN.md 3 C13")
 claim("C14",
-      "Theorems about the model's effect description: verify (all modes), diff, verify -dh, info, info -sf and flatten (w.r.t. the source) return the tree unchanged and an empty list of file-system operations for every input and outcome; a commit leaves the media tree (the tree with all ascmhl folders erased) unchanged, every operation it performs is the mkdir of a not-yet-existing ascmhl folder, the placement of a manifest or of the chain of a LOADED history, and generations are written only into loaded histories. Tied to the code, on every command of random command sequences (create folder/-sf/nested/-n/patterns, verify, verify -sf, verify -dh, verify -pl, diff, info, info -sf, hash, xsd-schema-check, flatten; any exit code): a full snapshot (type, bytes, mode, mtime) of tree and flatten destination before/after, and the Python audit events (open-for-write, mkdir, rename, remove, rmdir, utime, chmod, truncate, link, symlink, shutil.*) whose normalised sequence must equal the model's op list.",
+      "Theorems about the model's effect description: verify (all modes), diff, verify -dh, info, info -sf and flatten (w.r.t. the source) return the tree unchanged and an empty list of file-system operations for every input and outcome; a commit leaves the media tree (the tree with all ascmhl folders erased) unchanged, every operation it performs is the mkdir of a not-yet-existing ascmhl folder, the placement of a manifest or of the chain of a LOADED history, and generations are written only into loaded histories; for the COMPOSED create commands (folder mode with all options incl. -dr, and -sf mode) on every well-formed tree and for every outcome: the media tree is the same afterwards, every write concerns the ascmhl folder of a history of the tree, and a refused run writes nothing (uses: every loaded history sits at an existing folder). Tied to the code, on every command of random command sequences (create folder/-sf/nested/-n/patterns, verify, verify -sf, verify -dh, verify -pl, diff, info, info -sf, hash, xsd-schema-check, flatten; any exit code): a full snapshot (type, bytes, mode, mtime) of tree and flatten destination before/after, and the Python audit events (open-for-write, mkdir, rename, remove, rmdir, utime, chmod, truncate, link, symlink, shutil.*) whose normalised sequence must equal the model's op list.",
       "PARTIAL by nature: the theorem is about the model's op list; writes that raise no audit event would be invisible (none known: lxml does no file I/O here). hash and xsd-schema-check are not in the model (snapshot + audit only).",
       "Coq proof (case analysis of the readers, fold invariant over commit with an erase-histories abstraction) + audit-event trace vs model op list + full before/after snapshots",
       "DESIGN.md 3 C14")
